@@ -372,6 +372,13 @@ def apply_edits(fn_name, sig2, body2, rewrites, inserts, notes):
             body2 = rx.sub(lambda _m: new, body2)
             notes.append("R6: identifier rewrite in %s: `%s` => `%s`" % (fn_name, word, new))
             continue
+        if old.startswith("\x00r:"):
+            rx = re.compile(old[3:], re.S)
+            if not rx.search(body2):
+                raise LostAnchor("%s: shape rewrite matches nothing: %r" % (fn_name, old[3:]))
+            body2 = rx.sub(new, body2)
+            notes.append("R6: shape rewrite in %s: /%s/ => `%s`" % (fn_name, old[3:], new))
+            continue
         if old.startswith("\x00o:"):
             old = old[3:]
             if body2.count(old) + sig2.count(old) >= 1:
@@ -579,11 +586,11 @@ def fold_const(src, name, file, depth=0):
     return val, m.group(1).strip(), expr.strip()
 
 
-def extract_const(repo, file, name, fold=False):
+def extract_const(repo, file, name, fold=False, as_name=None):
     src = open(os.path.join(repo, file)).read()
     if fold:
         val, ty, expr = fold_const(src, name, file)
-        return "const %s: %s = %d; // R7 folded from: %s\n" % (name, ty, val, " ".join(expr.split()))
+        return "const %s: %s = %d; // R7 folded from %s::%s = %s\n" % (as_name or name, ty, val, file, name, " ".join(expr.split()))
     m = _const_src(src, name, file)
     text = re.sub(r"^\s*pub(\s*\([^)]*\))?\s+", "", m.group(0).strip())
     return text + "\n"
@@ -680,6 +687,13 @@ def _parse_fn_block(block):
             flush()
             rewrites.append((m.group(1).replace('\\"', '"'), m.group(2).replace('\\"', '"')))
             continue
+        m = re.match(r'rewrite_re "(.*)" => "(.*)"$', st)
+        if m:
+            # shape rewrite: a regular expression (DOTALL) with groups; the sub-expressions it captures are kept verbatim, so
+            # an edit inside them reaches the verifier instead of losing the anchor
+            flush()
+            rewrites.append(("\x00r:" + m.group(1), m.group(2)))
+            continue
         m = re.match(r'rewrite_opt "(.*)" => "(.*)"$', st)
         if m:
             # a path normalisation that applies wherever the text occurs and is not an anchor (absent => nothing to do)
@@ -757,7 +771,7 @@ def expand(template_text, repo):
             spans.append((fname + "[fragment]", start_line, out_len_lines))
             originals[fname + "[fragment]"] = orig
         elif kind == "const":
-            emit(extract_const(repo, kv["file"], kv["name"], fold=kv.get("fold") == "1"))
+            emit(extract_const(repo, kv["file"], kv["name"], fold=kv.get("fold") == "1", as_name=kv.get("as")))
             if kv.get("fold") == "1":
                 notes.append("R7: constant %s folded to a literal by the extractor" % kv["name"])
         pos = m.end()
